@@ -183,7 +183,10 @@ BOUNDARY_LENGTHS = (7, 8, 9, 14, 15, 16, 17, 31, 32, 33, 55, 56, 57, 63, 64, 65,
 
 def e1_passwords(quick):
     out = [("ascii", "password"), ("empty", ""), ("utf8", "pässwörd€"), ("nonutf8_bytes", b"\xff\xfe\x80pw"),
-           ("bytes_high", bytes(range(0x80, 0xA0))), ("len72", "x" * 72), ("len73", "y" * 73), ("len97", "z" * 97)]
+           ("bytes_high", bytes(range(0x80, 0xA0))), ("len72", "x" * 72), ("len73", "y" * 73), ("len97", "z" * 97),
+           # bytes that are not UTF-8 only BEYOND the 72 bytes bcrypt reads (the OS backend can take what it needs)
+           ("len73_tail_nonutf8", b"a" * 72 + b"\xff"), ("len80_tail_latin1", b"b" * 75 + "\u00e9".encode("latin-1") + b"zzzz"),
+           ("len74_tail_split_char", b"c" * 71 + "\u20ac".encode("utf-8")[:2] + b"\xfe")]
     # digest / HMAC / DES block boundaries (exactly at, one below, one above), as text, as multi-byte text and as
     # non-UTF-8 bytes (the latter take the fallback path under os_crypt)
     for L in BOUNDARY_LENGTHS:
@@ -229,6 +232,10 @@ def eval_e1(case):
             except Exception as e:  # noqa: BLE001
                 fallback_needed = isinstance(p, bytes) and not HS.is_utf8(p)
                 tag = "nonutf8_no_fallback" if (b == "os_crypt" and fallback_needed) else "hash_raises"
+                lim = getattr(H, "truncate_size", None)
+                if tag == "nonutf8_no_fallback" and lim and HS.is_utf8(p[:lim]):
+                    # everything the format reads IS text: a different situation from the recorded finding
+                    tag = "nonutf8_only_beyond_the_bytes_used"
                 out.append((f"C03|{name}|{tag}:{b}:{type(e).__name__}", f"backend {b!r}: hash({p!r}) raised {e!r}"))
         if len(set(res.values())) > 1:
             out.append((f"C03|{name}|disagree:{label}", f"backends disagree for {p!r} with {settings!r}: {res!r}"))
@@ -555,13 +562,14 @@ def run(ctx):
         wrapper = HS.base_name(name) != name
         if HS.base_name(name) in ("bcrypt", "bcrypt_sha256"):
             grid = grid[: (3 if ctx.quick else 6)]  # builtin bcrypt ~100 ms per hash
-            pws = e1_passwords(True)[: (5 if ctx.quick else 8)]
+            allp = e1_passwords(True)
+            pws = allp[: (5 if ctx.quick else 8)] + [t for t in allp if "_tail_" in t[0]]
         else:
             if ctx.quick:
                 grid = grid[:: max(1, len(grid) // 8)][:8]
             pws = e1_passwords(ctx.quick)
         if wrapper and ctx.quick:
-            grid, pws = grid[:2], pws[:4] + [t for t in pws[8:] if t[0].startswith(("len64", "len128"))]
+            grid, pws = grid[:2], pws[:4] + [t for t in pws[4:] if t[0].startswith(("len64", "len128")) or "_tail_" in t[0]]
         for si, st in enumerate(grid):
             for label, p in pws:
                 if ctx.quick and si >= 2 and label.startswith("len") and label[3:].split("_")[0].isdigit() and int(label[3:].split("_")[0]) in BOUNDARY_LENGTHS:
